@@ -304,6 +304,12 @@ def make_storage(kind, tmpdir, tag):
     from ZODB.MappingStorage import MappingStorage
     from ZODB.DemoStorage import DemoStorage
 
+    if kind == 'mvccmapping':
+        # the bundled natively-MVCC storage: the DB uses it WITHOUT the MVCC adapter, one instance per
+        # connection (shared data, shared commit lock)
+        from ZODB.tests.MVCCMappingStorage import MVCCMappingStorage
+        return MVCCMappingStorage(), None
+
     def simple(k, name):
         if k == 'file':
             return FileStorage(os.path.join(tmpdir, '%s-%s.fs' % (tag, name)), create=True)
@@ -621,10 +627,24 @@ class Recorder:
         self.on_event = None
         self.last_finish = {}     # thread ident -> tid (int) of the last successful tpc_finish
         self.last_vote = {}       # thread ident -> oids (ints) returned by the last tpc_vote
+        self.attach(storage, tid_of)
+
+    def attach(self, storage, tid_of):
+        """wrap the 2PC entry points of one storage instance; a natively-MVCC storage hands every
+        connection its own instance (`new_instance`), which is wrapped the same way"""
         for name in ('tpc_begin', 'store', 'checkCurrentSerialInTransaction', 'tpc_vote', 'tpc_finish',
                      'tpc_abort', 'deleteObject'):
             if hasattr(storage, name):
-                setattr(storage, name, self._wrap(name, getattr(storage, name)))
+                setattr(storage, name, self._wrap(name, getattr(storage, name), tid_of))
+        if hasattr(storage, 'new_instance'):
+            real_new = storage.new_instance
+            rec = self
+
+            def new_instance():
+                inst = real_new()
+                rec.attach(inst, tid_reader(inst))
+                return inst
+            storage.new_instance = new_instance
 
     def tnum(self, txn):
         k = id(txn)
@@ -637,8 +657,9 @@ class Recorder:
         if self.on_event:
             self.on_event(ev)
 
-    def _wrap(self, name, real):
+    def _wrap(self, name, real, tid_of=None):
         rec = self
+        tid_of = tid_of or self.tid_of
 
         def tpc_begin(txn, *a, **k):
             t = rec.tnum(txn)
@@ -648,7 +669,7 @@ class Recorder:
             except BaseException as e:  # noqa: B902
                 rec.emit('begin-exit', t, errname(e), 0)
                 raise
-            rec.emit('begin-exit', t, 'ok', rec.tid_of())
+            rec.emit('begin-exit', t, 'ok', tid_of())
 
         def store(oid, serial, data, version, txn):
             t = rec.tnum(txn)
